@@ -1122,6 +1122,172 @@ Proof.
     + intros [H|[<-|H]]; apply H4; auto; left; apply A4; auto.
 Qed.
 
+Lemma has_edge_sym c u w : has_edge c u w = has_edge c w u.
+Proof. unfold has_edge, edge_is. rewrite (Z.min_comm u w), (Z.max_comm u w). reflexivity. Qed.
+
+Lemma has_edge_add c a b u w : has_edge c a b = false ->
+  has_edge (add_edge_without_blockers c a b) u w = has_edge c u w || same_edge a b u w.
+Proof.
+  intros H. unfold add_edge_without_blockers. rewrite H. unfold has_edge. simpl edg. rewrite existsb_app. f_equal.
+  simpl. rewrite orb_false_r. unfold edge_is, same_edge. simpl. rewrite (Z.eqb_sym (Z.min a b)), (Z.eqb_sym (Z.max a b)). reflexivity.
+Qed.
+
+Lemma has_edge_irrefl c u : wf_edg c -> has_edge c u u = false.
+Proof.
+  intros Hw. apply not_true_is_false. intros H. unfold has_edge in H. apply existsb_exists in H. destruct H as [e [He H]].
+  specialize (Hw e He). unfold edge_is in H. apply andb_true_iff in H. rewrite !Z.eqb_eq in H. lia.
+Qed.
+
+Lemma all_pairs_In (f : Z -> Z -> bool) t : (forall u w, f u w = f w u) -> all_pairs f t = true ->
+  forall u w, In u t -> In w t -> u <> w -> f u w = true.
+Proof.
+  intros Hsym. induction t as [|x r IH]; intros H u w Hu Hw Huw; [destruct Hu|].
+  simpl in H. apply andb_true_iff in H. destruct H as [H1 H2]. rewrite forallb_forall in H1.
+  destruct Hu as [->|Hu]; destruct Hw as [->|Hw]; try congruence; auto.
+  rewrite Hsym. auto.
+Qed.
+
+Lemma all_pairs_missing (f : Z -> Z -> bool) t a b : (forall u w, f u w = f w u) ->
+  In a t -> In b t -> a <> b -> f a b = false -> all_pairs f t = false.
+Proof.
+  intros Hsym Ha Hb Hab Hf. destruct (all_pairs f t) eqn:E; auto.
+  rewrite (all_pairs_In f t Hsym E a b Ha Hb Hab) in Hf. discriminate.
+Qed.
+
+Lemma link_vertices_pair c m M x : wf_edg c ->
+  In x (link_vertices c [m; M]) <->
+  has_edge c m x = true /\ has_edge c M x = true /\
+  existsb (fun beta => ssub (sremove x beta) [m; M]) (blockers_at c x) = false.
+Proof.
+  intros Hw. unfold link_vertices. rewrite !filter_In. simpl hdz. simpl forallb. rewrite andb_true_r.
+  rewrite andb_true_iff, !smem_In, !(nbrs_has_edge c _ _ Hw), negb_true_iff. tauto.
+Qed.
+
+Lemma inc_two_elements t m M : inc t -> m < M -> In m t -> In M t -> (forall x, In x t -> x = m \/ x = M) -> t = [m; M].
+Proof.
+  intros Hi HmM Hm HM Hall. destruct t as [|x1 r]; [destruct Hm|].
+  apply StronglySorted_inv in Hi. destruct Hi as [Hr Hx1]. rewrite Forall_forall in Hx1.
+  assert (E1 : x1 = m).
+  { destruct (Hall x1 (or_introl eq_refl)) as [E|E]; auto. subst x1. destruct Hm as [E|Hm]; [lia|]. specialize (Hx1 m Hm). lia. }
+  subst x1. destruct HM as [E|HM]; [lia|]. destruct r as [|x2 r']; [destruct HM|].
+  apply StronglySorted_inv in Hr. destruct Hr as [Hr' Hx2]. rewrite Forall_forall in Hx2.
+  assert (E2 : x2 = M).
+  { destruct (Hall x2 (or_intror (or_introl eq_refl))) as [E|E]; auto. specialize (Hx1 x2 (or_introl eq_refl)). lia. }
+  subst x2. destruct r' as [|x3 r'']; auto. exfalso.
+  specialize (Hx2 x3 (or_introl eq_refl)). destruct (Hall x3 (or_intror (or_intror (or_introl eq_refl)))); lia.
+Qed.
+
+Theorem add_edge_spec (c : cplx) (a b : Z) (t : simplex) :
+  a <> b -> has_edge c a b = false -> wf_blk c -> wf_edg c -> inc t ->
+  contains (add_edge c a b) t
+  = contains c t || (seqb t [Z.min a b; Z.max a b] && contains_vertex c a && contains_vertex c b).
+Proof.
+  intros Hab Hne Hwb Hwe Hit. unfold add_edge. rewrite Hne.
+  set (m := Z.min a b). set (M := Z.max a b).
+  assert (HmM : m < M) by (unfold m, M; lia).
+  set (c1 := add_edge_without_blockers c a b).
+  assert (Hc1 : slots c1 = slots c /\ act c1 = act c /\ blk c1 = blk c /\ edg c1 = edg c ++ [(m, M)]).
+  { unfold c1, add_edge_without_blockers. rewrite Hne. simpl. auto. }
+  destruct Hc1 as [S1 [A1 [B1 E1]]].
+  assert (Hwe1 : wf_edg c1).
+  { intros e He. rewrite E1 in He. apply in_app_iff in He. destruct He as [He|[<-|[]]]; auto. }
+  unfold add_blockers_after_simplex_insertion.
+  assert (Hd : dim [m; M] <? 1 = false) by reflexivity. rewrite Hd. clear Hd.
+  set (L := coboundary c1 [m; M]).
+  destruct (fold_add_blocker_In L c1) as [S2 [A2 [E2 B2]]].
+  set (c2 := fold_left add_blocker L c1) in *.
+  assert (Hcv : forall v, contains_vertex c2 v = contains_vertex c v).
+  { intros v. unfold contains_vertex. rewrite S2, A2, S1, A1. auto. }
+  assert (Hhe : forall u w, has_edge c2 u w = has_edge c u w || same_edge a b u w).
+  { intros u w. rewrite <- (has_edge_add c a b u w Hne). fold c1. unfold has_edge. rewrite E2. auto. }
+  assert (HL : forall beta, In beta L <-> exists v, beta = sinsert v [m; M] /\ In v (link_vertices c1 [m; M])).
+  { intros beta. unfold L, coboundary. rewrite in_map_iff. split; intros [v [H1 H2]]; exists v; auto. }
+  assert (Hab_mM : forall x, (x = a \/ x = b) <-> (x = m \/ x = M)) by (intros x; unfold m, M; lia).
+  destruct t as [|x [|y r]].
+  - reflexivity.
+  - simpl contains. rewrite Hcv. simpl. rewrite andb_false_r. simpl. rewrite orb_false_r. auto.
+  - remember (x :: y :: r) as T eqn:ET.
+    assert (Hct : forall c0, contains c0 T = contains_edges c0 T && negb (blocks c0 T)) by (intros; rewrite ET; apply contains_two).
+    destruct (smem a T && smem b T) eqn:Eab.
+    + (* both end points in T *)
+      apply andb_true_iff in Eab. destruct Eab as [Ea Eb]. apply smem_In in Ea, Eb.
+      assert (Hc0 : contains c T = false).
+      { rewrite Hct. unfold contains_edges.
+        rewrite (all_pairs_missing (has_edge c) T a b (has_edge_sym c) Ea Eb Hab Hne). rewrite andb_false_r. auto. }
+      rewrite Hc0. simpl orb.
+      destruct (seqb T [m; M]) eqn:Es.
+      * apply seqb_eq in Es. rewrite Es. rewrite contains_two. unfold contains_edges.
+        simpl forallb. simpl all_pairs. rewrite !Hcv, Hhe. rewrite !andb_true_r.
+        assert (Hse : same_edge a b m M = true) by (apply same_edge_iff; unfold m, M; lia).
+        rewrite Hse, orb_true_r, andb_true_r.
+        assert (Hbl : blocks c2 [m; M] = false).
+        { apply not_true_is_false. intros Hb. apply blocks_spec in Hb. destruct Hb as [beta [Hin [Hn Hs]]].
+          apply B2 in Hin. destruct Hin as [Hin|Hin].
+          - rewrite B1 in Hin. destruct (Hwb beta Hin) as [Hnd Hlen]. pose proof (ssub_length _ _ Hnd Hs). simpl in H. lia.
+          - apply HL in Hin. destruct Hin as [v [-> Hv]]. apply (link_vertices_pair c1 m M v Hwe1) in Hv.
+            destruct Hv as [Hv1 [Hv2 _]].
+            assert (v <> m) by (intros ->; rewrite (has_edge_irrefl c1 m Hwe1) in Hv1; discriminate).
+            assert (v <> M) by (intros ->; rewrite (has_edge_irrefl c1 M Hwe1) in Hv2; discriminate).
+            apply ssub_incl in Hs. specialize (Hs v (proj2 (sinsert_In v v [m; M]) (or_introl eq_refl))).
+            simpl in Hs. intuition. }
+        rewrite Hbl. simpl. rewrite andb_true_r.
+        unfold m, M. destruct (Z.le_gt_cases a b).
+        -- rewrite Z.min_l, Z.max_r by lia. auto.
+        -- rewrite Z.min_r, Z.max_l by lia. apply andb_comm.
+      * simpl. (* some third vertex x0 of T is adjacent to both: a blocker inside T *)
+        assert (HmT : In m T) by (destruct (proj2 (Hab_mM m) (or_introl eq_refl)) as [E| E]; rewrite E; auto).
+        assert (HMT : In M T) by (destruct (proj2 (Hab_mM M) (or_intror eq_refl)) as [E| E]; rewrite E; auto).
+        assert (Hex : exists x0, In x0 T /\ x0 <> m /\ x0 <> M).
+        { destruct (existsb (fun z => negb (z =? m) && negb (z =? M)) T) eqn:Ex.
+          - apply existsb_exists in Ex. destruct Ex as [z [Hz Hzz]]. apply andb_true_iff in Hzz.
+            rewrite !negb_true_iff, !Z.eqb_neq in Hzz. exists z. tauto.
+          - exfalso. assert (T = [m; M]); [|rewrite (proj2 (seqb_eq _ _) H) in Es; discriminate].
+            apply inc_two_elements; auto.
+            intros z Hz. destruct (Z.eq_dec z m); auto. destruct (Z.eq_dec z M); auto. exfalso.
+              assert (existsb (fun z => negb (z =? m) && negb (z =? M)) T = true); [|congruence].
+              apply existsb_exists. exists z. split; auto. apply andb_true_iff. rewrite !negb_true_iff, !Z.eqb_neq. auto. }
+        destruct Hex as [x0 [Hx0 [Hxm HxM]]].
+        rewrite Hct.
+        destruct (contains_edges c2 T) eqn:Ece; auto. simpl.
+        apply negb_false_iff. apply blocks_spec.
+        unfold contains_edges in Ece. apply andb_true_iff in Ece. destruct Ece as [_ Eap].
+        assert (He1 : forall u w, In u T -> In w T -> u <> w -> has_edge c1 u w = true).
+        { intros u w Hu Hw Huw. pose proof (all_pairs_In (has_edge c2) T (has_edge_sym c2) Eap u w Hu Hw Huw) as H.
+          unfold has_edge in *. rewrite E2 in H. auto. }
+        destruct (existsb (fun beta => ssub (sremove x0 beta) [m; M]) (blockers_at c1 x0)) eqn:ED.
+        -- apply existsb_exists in ED. destruct ED as [beta [Hin Hs]]. unfold blockers_at in Hin. apply filter_In in Hin.
+           destruct Hin as [Hin Hx]. exists beta. split; [apply B2; auto|]. split; [intros ->; discriminate|].
+           apply ssub_incl. intros z Hz. destruct (Z.eq_dec z x0) as [->|Nz]; auto.
+           apply ssub_incl in Hs. specialize (Hs z (proj2 (sremove_In z x0 beta) (conj Hz Nz))).
+           destruct Hs as [<-|[<-|[]]]; auto.
+        -- exists (sinsert x0 [m; M]). split; [|split].
+           ++ apply B2. right. apply HL. exists x0. split; auto. apply (link_vertices_pair c1 m M x0 Hwe1). repeat split; auto.
+           ++ intros H. assert (In x0 (sinsert x0 [m; M])) by (apply sinsert_In; auto). rewrite H in H0. destruct H0.
+           ++ apply ssub_incl. intros z Hz. apply sinsert_In in Hz. destruct Hz as [->|[<-|[<-|[]]]]; auto.
+    + (* not both end points in T: nothing changes *)
+      assert (Hnot : ~ (In a T /\ In b T)).
+      { intros [H1 H2]. apply smem_In in H1, H2. rewrite H1, H2 in Eab. discriminate. }
+      assert (Hs : seqb T [m; M] = false).
+      { destruct (seqb T [m; M]) eqn:Es; auto. apply seqb_eq in Es. exfalso. apply Hnot. rewrite Es.
+        destruct (proj1 (Hab_mM a) (or_introl eq_refl)) as [Q1|Q1]; destruct (proj1 (Hab_mM b) (or_intror eq_refl)) as [Q2|Q2];
+          rewrite Q1, Q2; simpl; auto. }
+      rewrite Hs. simpl. rewrite orb_false_r. rewrite !Hct. f_equal.
+      * unfold contains_edges. f_equal; [apply forallb_ext'; auto|].
+        apply all_pairs_ext_in. intros u w Hu Hw. rewrite Hhe.
+        destruct (same_edge a b u w) eqn:Ese; [|apply orb_false_r]. exfalso. apply Hnot.
+        apply same_edge_iff in Ese. destruct Ese as [[-> ->]|[-> ->]]; auto.
+      * f_equal. apply eq_true_iff_eq. rewrite !blocks_spec. split.
+        -- intros [beta [Hin [Hn Hsb]]]. apply B2 in Hin. destruct Hin as [Hin|Hin].
+           ++ exists beta. rewrite <- B1. auto.
+           ++ exfalso. apply HL in Hin. destruct Hin as [v [-> _]]. apply ssub_incl in Hsb. apply Hnot.
+              assert (Hm' : In m T) by (apply Hsb; apply sinsert_In; right; left; auto).
+              assert (HM' : In M T) by (apply Hsb; apply sinsert_In; right; right; left; auto).
+              destruct (proj1 (Hab_mM a) (or_introl eq_refl)) as [Q1|Q1];
+                destruct (proj1 (Hab_mM b) (or_intror eq_refl)) as [Q2|Q2]; rewrite Q1, Q2; auto.
+        -- intros [beta [Hin Hr]]. exists beta. split; auto. apply B2. left. rewrite B1. auto.
+Qed.
+
+
 (* ================================================================== witnesses *)
 (* boundary of the tetrahedron 0123 built through the transcribed operations *)
 Definition complete4 : cplx :=
@@ -1174,6 +1340,16 @@ Proof.
 Qed.
 
 (* non-vacuity of the hypotheses used above *)
+Example add_edge_hypotheses_instance :
+  let c := add_vertex hollow_tetrahedron in
+  has_edge c 0 4 = false /\ wf_blk c /\ wf_edg c /\ inc [0; 4] /\ contains (add_edge c 0 4) [0; 4] = true /\
+  contains (add_edge (add_edge c 0 4) 1 4) [0; 1; 4] = false.
+Proof.
+  split; [vm_compute; auto|]. split; [|split; [|split; [repeat constructor; lia | split; vm_compute; auto]]].
+  - intros b Hb. vm_compute in Hb. destruct Hb as [<-|[]]. split; [|simpl; lia].
+    repeat constructor; simpl; intuition lia.
+  - intros e He. vm_compute in He. repeat (destruct He as [<-|He]; [vm_compute; auto|]). destruct He.
+Qed.
 Example wf_slots_instance : wf_slots hollow_tetrahedron.
 Proof.
   split; [vm_compute; discriminate|]. intros e He. vm_compute in He.
